@@ -23,7 +23,7 @@ from .report import SubVerdict, Verdict
 from .tlc import MachineryError
 from .tracecheck import validate
 
-SRC_FLAVOURS = ("cls", "agen", "clsnoclose", "list", "seq", "iter", "clslazy", "clsgetattr")
+SRC_FLAVOURS = ("cls", "agen", "clsnoclose", "list", "seq", "iter", "clslazy", "clsgetattr", "clstruthy")
 
 
 def stratified(rnd, cases, cap):
